@@ -478,14 +478,28 @@ func ruleTerminationArms(c *Ctx, r *R) {
 				continue
 			}
 			st := nt.Type().Underlying().(*types.Struct)
+			meths := c.methodsOf(rel, typ)
+			// the signal this half raises itself (it closes it) is not one it has to listen to; by direction when the field is
+			// declared send-only, by use when it has a bidirectional / named channel type
+			ownSignal := map[string]bool{}
+			for _, m := range meths {
+				for _, cs := range closeSites(m) {
+					chv := cs.ch
+					if ct, ok := chv.(*ssa.ChangeType); ok {
+						chv = ct.X
+					}
+					if f := fieldOfChan(chv); f != "" {
+						ownSignal[f] = true
+					}
+				}
+			}
 			var termFields []string
 			for i := 0; i < st.NumFields(); i++ {
 				f := st.Field(i)
-				if ch, ok := f.Type().Underlying().(*types.Chan); ok && chanElemIsEmptyStruct(f.Type()) && ch.Dir() != types.SendOnly {
+				if ch, ok := f.Type().Underlying().(*types.Chan); ok && chanElemIsEmptyStruct(f.Type()) && ch.Dir() != types.SendOnly && !ownSignal[canonField(nt.Type(), f.Name())] {
 					termFields = append(termFields, canonField(nt.Type(), f.Name()))
 				}
 			}
-			meths := c.methodsOf(rel, typ)
 			var mn []string
 			for n := range meths {
 				mn = append(mn, n)
@@ -552,12 +566,17 @@ func rulePipePublish(c *Ctx, r *R) {
 			if strings.HasSuffix(path(x.Addr), ".senderErr") {
 				storeIn = x
 			}
-		case *ssa.Call:
-			if bi, ok := x.Call.Value.(*ssa.Builtin); ok && bi.Name() == "close" && fieldOfChan(x.Call.Args[0]) == "senderDone" {
-				closeIn = x
-			}
 		}
 	})
+	for _, cs := range closeSites(cl) {
+		chv := cs.ch
+		if ct, ok := chv.(*ssa.ChangeType); ok {
+			chv = ct.X
+		}
+		if fieldOfChan(chv) == "senderDone" && cs.uncond {
+			closeIn = cs.at
+		}
+	}
 	okOrder := storeIn != nil && closeIn != nil && storeIn.Block().Dominates(closeIn.Block()) && (storeIn.Block() != closeIn.Block() || idxIn(storeIn) < idxIn(closeIn)) && isParamValue(storeIn.(*ssa.Store).Val, cl)
 	r.ok(okOrder, "stream.PipeSender.Close|store-then-close", cl.Pos(), "*senderErr = err must be stored (the parameter itself) before close(senderDone) on every path: receivers read it right after observing the close")
 	// readers
@@ -753,36 +772,44 @@ func rulePipeWhoMayClose(c *Ctx, r *R) {
 			continue
 		}
 		name := c.nameOf(fn)
-		instrs(fn, func(b *ssa.BasicBlock, i int, in ssa.Instruction) {
-			cc := callCommon(in)
-			if cc == nil {
-				return
+		for _, cs := range closeSites(fn) {
+			in := cs.at
+			chv := cs.ch
+			if ct, ok := chv.(*ssa.ChangeType); ok {
+				chv = ct.X
 			}
-			bi, ok := cc.Value.(*ssa.Builtin)
-			if !ok || bi.Name() != "close" {
-				return
-			}
-			f := fieldOfChan(cc.Args[0])
-			p := path(cc.Args[0])
+			f := fieldOfChan(chv)
+			p := path(chv)
 			key := name + "|close(" + p + ")"
 			recvT := ""
-			if ld, ok := cc.Args[0].(*ssa.UnOp); ok {
+			if ld, ok := chv.(*ssa.UnOp); ok {
 				if fa, ok := ld.X.(*ssa.FieldAddr); ok {
-					recvT = typeShort(fa.X.Type())
+					base := fa.X
+					for { // through structs embedded by value (pipeShared inside PipeSender)
+						fa2, ok := base.(*ssa.FieldAddr)
+						if !ok {
+							break
+						}
+						base = fa2.X
+					}
+					recvT = typeShort(base.Type())
 				}
 			}
 			if recvT == "PipeSender" || recvT == "pipeStream" {
 				want, isTerm := allowed[f]
 				if !isTerm {
 					r.violated(key, in.Pos(), "the Pipe data channel must never be closed (a concurrent Send would panic)")
-					return
+					continue
 				}
 				seen[f] = true
 				r.ok(want == name, key, in.Pos(), f+" may only be closed by "+want)
-				return
+				continue
+			}
+			if _, isParam := chv.(*ssa.Parameter); isParam && cs.at == cs.in {
+				continue // a closing helper of a channel type: accounted for at its call sites
 			}
 			r.discharged(key, in.Pos(), "not a Pipe channel")
-		})
+		}
 	}
 	for f, owner := range allowed {
 		r.ok(seen[f], "closer-exists|"+f, token.NoPos, owner+" must close "+f)
@@ -975,4 +1002,51 @@ func doneParamIndex(h *ssa.Function) int {
 		}
 	}
 	return -1
+}
+
+// closeSite: a close of a channel performed by fn itself or, on its behalf, by an in-package helper that closes (one of) its
+// channel parameters - `s.senderDone.raise()` with `func (sig pipeSignal) raise() { close(sig) }`. ch is the channel in fn's
+// terms, at is the instruction of fn (the close itself or the call of the helper), uncond tells whether the helper reaches
+// its close from its entry without a branch.
+type closeSite struct {
+	ch     ssa.Value
+	at     ssa.Instruction
+	in     ssa.Instruction
+	uncond bool
+}
+
+func closeSites(fn *ssa.Function) []closeSite {
+	var out []closeSite
+	for _, di := range deepInstrs(fn, 2) {
+		cc := callCommon(di.in)
+		if cc == nil {
+			continue
+		}
+		bi, ok := cc.Value.(*ssa.Builtin)
+		if !ok || bi.Name() != "close" || len(cc.Args) != 1 {
+			continue
+		}
+		if len(di.calls) == 0 {
+			out = append(out, closeSite{cc.Args[0], di.in, di.in, true})
+			continue
+		}
+		if _, isParam := cc.Args[0].(*ssa.Parameter); !isParam {
+			continue // the helper closes something of its own: decided where the helper is analysed
+		}
+		uncond := di.in.Block() == di.in.Parent().Blocks[0]
+		for _, via := range di.calls[1:] {
+			if via.Block() != via.Parent().Blocks[0] {
+				uncond = false
+			}
+		}
+		chv := argOf(cc.Args[0], di.calls)
+		if vi, isInstr := chv.(ssa.Instruction); isInstr && vi.Parent() != fn {
+			continue // the channel belongs to an intermediate frame (fn calls X.Close(), which closes X's own channel)
+		}
+		if prm, isParam := chv.(*ssa.Parameter); isParam && prm.Parent() != fn {
+			continue
+		}
+		out = append(out, closeSite{chv, di.calls[0], di.in, uncond})
+	}
+	return out
 }
